@@ -86,3 +86,48 @@ CONTROLS = [
                         else_=[("link:V3", "setting", 0.01)], priority=4)),
     ("r6", "rule", dict(cond=("or", ("clock", "<", "00:15:00"), ("value", "node:T2", "head", "<=", 14.5)), then=[("link:V5", "setting", 2.0)], else_=[], priority=6)),
 ]
+
+
+# ---------------------------------------------------------------------------------------------------------------------------------------------------------
+# variant B: the same network under the OTHER settings of the options that steer branches of the readers / writers (Hazen-Williams instead of Darcy-Weisbach,
+# demand-driven instead of pressure-driven, source tracing instead of a chemical, a reporting statistic, CONTINUE n for unbalanced steps, midnight start), plus
+# elements the base recipe does not have: a junction with three demand categories, a power pump with a speed below one and a speed pattern, a tank with a
+# minimum volume and no overflow, a one-multiplier pattern, a long curve, a pipe that starts CLOSED with a minor loss, clock-time controls in the midnight hour.
+_B_DROP_OPTS = {("hydraulic", "demand_model"), ("hydraulic", "minimum_pressure"), ("hydraulic", "required_pressure"), ("hydraulic", "pressure_exponent"),
+                ("hydraulic", "headloss"), ("hydraulic", "viscosity"), ("hydraulic", "trials"), ("hydraulic", "accuracy"), ("quality", "parameter"),
+                ("quality", "inpfile_units"), ("time", "start_clocktime"), ("time", "pattern_start"), ("time", "pattern_interpolation")}
+_B_EXTRA = [
+    ("wn", "add_pattern", ("PAT_ONE", [0.75]), {}),
+    ("wn", "add_curve", ("CRV_LONG", "HEAD", [(0.0, 60.0), (0.02, 58.0), (0.04, 54.0), (0.06, 47.0), (0.08, 37.0), (0.1, 24.0), (0.12, 8.0)]), {}),
+    ("wn", "add_junction", ("J5",), dict(base_demand=0.004, demand_pattern="PAT_ONE", elevation=1.5, coordinates=(8.0, 4.0), demand_category="a")),
+    ("node:J5", "add_demand", (0.001, "PAT_A", "b"), {}),
+    ("node:J5", "add_demand", (0.0005, None, "c"), {}),
+    ("wn", "add_tank", ("T3",), dict(elevation=15.0, init_level=3.0, min_level=1.0, max_level=8.0, diameter=4.0, min_vol=12.5, overflow=False, coordinates=(8.0, 8.0))),
+    ("wn", "add_pipe", ("P5", "J5", "J1"), dict(length=60.0, diameter=0.25, roughness=110.0, minor_loss=1.5, initial_status="CLOSED")),
+    ("wn", "add_pipe", ("P6", "J5", "T3"), dict(length=30.0, diameter=0.3, roughness=130.0)),
+    ("wn", "add_pump", ("PU4", "R2", "J5"), dict(pump_type="POWER", pump_parameter=7500.0, speed=0.9, pattern="PAT_A")),
+    ("wn", "add_pump", ("PU5", "R1", "J5"), dict(pump_type="HEAD", pump_parameter="CRV_LONG")),
+    ("setopt", "hydraulic", "headloss", "H-W"), ("setopt", "hydraulic", "specific_gravity", 0.98), ("setopt", "hydraulic", "unbalanced", "CONTINUE"),
+    ("setopt", "hydraulic", "unbalanced_value", 10), ("setopt", "hydraulic", "checkfreq", 3), ("setopt", "hydraulic", "maxcheck", 12), ("setopt", "hydraulic", "damplimit", 0.01),
+    ("setopt", "hydraulic", "headerror", 0.001), ("setopt", "hydraulic", "flowchange", 0.0001), ("setopt", "hydraulic", "trials", 40), ("setopt", "hydraulic", "accuracy", 0.01),
+    ("setopt", "time", "statistic", "AVERAGED"), ("setopt", "time", "report_start", 3600), ("setopt", "time", "quality_timestep", 300),
+    ("setopt", "quality", "parameter", "TRACE"), ("setopt", "quality", "trace_node", "R1"),
+    ("setopt", "reaction", "tank_order", 1.0),
+]
+_B_CONTROLS = [
+    ("b_midnight", "simple", dict(target="link:P5", attr="status", value="status:Open", cond=("clock", "=", "00:30:00"))),
+    ("b_lvl", "simple", dict(target="link:PU4", attr="status", value="status:Closed", cond=("value", "node:T3", "level", ">", 7.5))),
+    ("b_speed", "simple", dict(target="link:PU4", attr="base_speed", value=0.6, cond=("value", "node:T3", "level", "<", 2.0))),
+    ("rb1", "rule", dict(cond=("and", ("value", "node:T3", "level", "<", 1.5), ("simtime", ">=", 3600)), then=[("link:PU5", "status", "status:Open")],
+                         else_=[("link:PU5", "status", "status:Closed"), ("link:PU4", "base_speed", 1.0)], priority=1)),
+]
+
+
+def recipe(variant="A"):
+    """-> (steps, controls) of a fixture variant"""
+    if variant == "A":
+        return STEPS, CONTROLS
+    if variant == "B":
+        steps = [st for st in STEPS if not (st[0] == "setopt" and (st[1], st[2]) in _B_DROP_OPTS)] + _B_EXTRA
+        return steps, CONTROLS + _B_CONTROLS
+    raise ValueError(variant)
